@@ -103,18 +103,18 @@ accepts the whole-core model's port behaviour.  (The check evaluates the same mo
 def core_memory_semantics_full : Prop :=
   ∀ (c : Core.Cfg) (inputs : List (Array MasterIn)), ∃ m, runSpec c (c.phy.dataWidth / 8) inputs = .ok m
 
-/-- **Per-bank order**: from reset, for every command-buffer depth ≥ 1 and every input history (requests offered or
+/-- **Per-bank order**: from reset, for every command-buffer depth ≥ 2 (a real FIFO; depths 0 and 1 are a wire / a single register and are co-simulated only) and every input history (requests offered or
 not, `cmd.ready` from the multiplexer at arbitrary cycles, refresh requests at arbitrary cycles), the sequence of
 requests the bank machine has accepted from the crossbar equals the sequence of requests its RD/WR commands have
 served so far followed by what is still queued: nothing is lost, duplicated or reordered inside a bank. -/
-theorem bank_queue_fifo (c : BankMachine.Cfg) (hd : 1 ≤ c.depth) (ins : List BankMachine.In) :
+theorem bank_queue_fifo (c : BankMachine.Cfg) (hd : 2 ≤ c.depth) (ins : List BankMachine.In) :
     let r := BmQueue.runLog c (BankMachine.State.init c) [] [] ins
     r.2.1 = r.2.2 ++ BmQueue.queue c r.1 :=
-  (BmQueue.runLog_inv c ins (BankMachine.State.init c) [] [] (BmQueue.finv_init c hd)
+  (BmQueue.runLog_inv c hd ins (BankMachine.State.init c) [] [] (BmQueue.finv_init c (by omega))
     (by simp [BmQueue.queue, BmQueue.fifoList, BankMachine.State.init])).2
 
 /-- in particular the served sequence is a prefix of the accepted sequence -/
-theorem served_prefix_of_accepted (c : BankMachine.Cfg) (hd : 1 ≤ c.depth) (ins : List BankMachine.In) :
+theorem served_prefix_of_accepted (c : BankMachine.Cfg) (hd : 2 ≤ c.depth) (ins : List BankMachine.In) :
     (BmQueue.runLog c (BankMachine.State.init c) [] [] ins).2.2 <+: (BmQueue.runLog c (BankMachine.State.init c) [] [] ins).2.1 :=
   ⟨_, (bank_queue_fifo c hd ins).symm⟩
 
